@@ -191,6 +191,20 @@ func runSide(ctx context.Context, r *vk.Run, p *world.Produced, steps []step, ad
 	return f, s, "", false
 }
 
+// whereIs lists the DA heights at which a blob sits.
+func whereIs(all map[uint64][][]byte, blob []byte) []uint64 {
+	var at []uint64
+	for dh, bs := range all {
+		for _, b := range bs {
+			if bytes.Equal(b, blob) {
+				at = append(at, dh)
+			}
+		}
+	}
+	sort.Slice(at, func(i, j int) bool { return at[i] < at[j] })
+	return at
+}
+
 func runCase(r *vk.Run, p *world.Produced, c Case, steps []step, advs []Adv) {
 	ctx := context.Background()
 	wit := func(extra map[string]any) any {
@@ -256,6 +270,46 @@ func runCase(r *vk.Run, p *world.Produced, c Case, steps []step, advs []Adv) {
 			genuineHdr[string(p.HeaderHash[i])] = true
 			if len(p.Txs[i]) > 0 {
 				genuineComm[string(commitmentOf(p.Txs[i]))] = true
+			}
+		}
+		// a DA-inclusion mark of a GENUINE header or data must come from a blob the proposer signed: the DA height the node
+		// remembers for it is one at which the proposer's own blob sits (a copy of the header with another signature has
+		// the same hash - it must not be what the mark rests on). Judged on the marks themselves, not on what the
+		// inclusion loop happened to record from them.
+		all := fb.DA.AllBlobs()
+		sitsAt := func(blob []byte, dh uint64) bool {
+			for _, b := range all[dh] {
+				if bytes.Equal(b, blob) {
+					return true
+				}
+			}
+			return false
+		}
+		for i := range p.Heights {
+			for _, key := range []string{fmt.Sprintf("%X", p.HeaderHash[i]), hashString(p.HeaderHash[i])} {
+				if dh, ok := fb.N.M.HeaderCache().GetDAIncludedHeight(key); ok {
+					r.Hit("da-mark-rests-on-proposer-blob")
+					if !sitsAt(p.HeaderBlob[i], dh) {
+						viol = append(viol, fmt.Sprintf("the header of height %d is marked DA-included at DA height %d, where no header blob signed by the proposer sits (the proposer's blob is at %v)", p.Heights[i], dh, whereIs(all, p.HeaderBlob[i])))
+						keyBinding = true
+					}
+					break
+				}
+			}
+			if len(p.Txs[i]) > 0 && p.DataBlob[i] != nil {
+				if dh, ok := fb.N.M.DataCache().GetDAIncludedHeight(hashString(commitmentOf(p.Txs[i]))); ok {
+					r.Hit("da-mark-rests-on-proposer-blob")
+					okAt := false
+					for j := range p.Heights { // blocks with the same transaction list share the mark (known finding of C07)
+						if p.DataBlob[j] != nil && bytes.Equal(commitmentOf(p.Txs[j]), commitmentOf(p.Txs[i])) && sitsAt(p.DataBlob[j], dh) {
+							okAt = true
+						}
+					}
+					if !okAt {
+						viol = append(viol, fmt.Sprintf("the data of height %d is marked DA-included at DA height %d, where no data blob signed by the proposer sits (the proposer's blob is at %v)", p.Heights[i], dh, whereIs(all, p.DataBlob[i])))
+						keyBinding = true
+					}
+				}
 			}
 		}
 		for _, a := range advs {
